@@ -1,0 +1,20 @@
+//go:build verif
+// +build verif
+
+package access
+
+import (
+	"com.tuntun.rangers/node/src/common"
+	"com.tuntun.rangers/node/src/core"
+	"com.tuntun.rangers/node/src/middleware/log"
+)
+
+// VerifC15NewJoinedGroupStorage builds a JoinedGroupStorage over the given
+// (in-memory) group chain instead of core.GetGroupChain(), so that a
+// verification harness can register joined groups without a node database.
+func VerifC15NewJoinedGroupStorage(gc core.GroupChain, l log.Logger) *JoinedGroupStorage {
+	if logger == nil {
+		logger = l
+	}
+	return &JoinedGroupStorage{groupChain: gc, cache: common.CreateLRUCache(30)}
+}
